@@ -104,6 +104,11 @@ type Invocation struct {
 	tickIdx int      // harness-call index of this invocation's begin tick
 	Actions []string // executed action names, in order (each try)
 	WaitersParked int
+
+	// bracket verification at the first later observation point (next invocation begin / enclosing end / end of Check)
+	Verified        bool
+	CtxOpenAtNext   int
+	CleanupsPending int
 }
 
 func (inv *Invocation) FatalSignal() *SignalRec {
@@ -335,6 +340,7 @@ type World struct {
 	clk    *clock
 	TB     *simTB
 
+	pending   []*Invocation // ended, bracket not yet verified
 	cur       *Invocation // innermost open invocation
 	stack     []*Invocation
 	nextClean int
@@ -359,9 +365,13 @@ func NewWorld(name string, pol ClockPolicy, withCtx bool) *World {
 	if withCtx {
 		w.TB.ctx = context.WithValue(context.Background(), ctxKey{}, "simtb")
 	}
+	return w
+}
+
+// initChans must run inside the bubble: channels made outside are not durably blocking for synctest.
+func (w *World) initChans() {
 	w.waiterDone = make(chan int, 1<<16)
 	w.waiterFree = make(chan struct{})
-	return w
 }
 
 type ctxKey struct{}
@@ -383,6 +393,7 @@ func (w *World) beginInv(t *rapid.T, custom bool) *Invocation {
 		w.Overrun = true
 		panic(overrunPanic{})
 	}
+	w.verifyPending()
 	inv := &Invocation{Idx: len(w.Invs), Custom: custom, Parent: -1, tickIdx: tick}
 	if w.cur != nil {
 		inv.Parent = w.cur.Idx
@@ -396,7 +407,23 @@ func (w *World) beginInv(t *rapid.T, custom bool) *Invocation {
 }
 
 // endInv runs as a plain deferred call (never recovers).
+// verifyPending: at an observation point every bracket of an earlier, finished invocation must be closed.
+func (w *World) verifyPending() {
+	for _, p := range w.pending {
+		p.Verified = true
+		for _, c := range p.Ctxs {
+			if !c.InCleanup && c.Ctx.Err() == nil {
+				p.CtxOpenAtNext++
+			}
+		}
+		p.CleanupsPending = len(p.CleanReg) - len(p.CleanRun)
+	}
+	w.pending = w.pending[:0]
+}
+
 func (w *World) endInv(t *rapid.T, inv *Invocation) {
+	w.verifyPending() // inner (Custom) brackets close before the enclosing call ends
+	w.pending = append(w.pending, inv)
 	inv.Ended = true
 	switch {
 	case inv.Returned:
